@@ -5,7 +5,7 @@ import importlib
 
 PROPS = {
     "C13": dict(
-        modules=["contracts.C13_hash", "contracts.C13_lemmas"],
+        modules=["contracts.C13_hash", "contracts.C13_lemmas", "contracts.C13_bounded", "contracts.C13_label"],
         decided=[
             "the byte stream digested for a step's input hash equals the spec stream INP(label, shell, "
             "sorted inputs, sorted variables, sorted overrides); the output digest equals FILES(sorted outputs)",
